@@ -25,4 +25,7 @@ MANIFEST = {
 def run(tier, seed, replay):
     return schedprops.run(ID, NAME_RE, FAMS, tier, seed, replay, files=schedprops.SCHED_FILES + ["Properties_SchedMig.v"],
                           known_patterns={"F6": ("# F6", r"^F6:")},
+                          # delay before the hooked action that follows a MIG_CB / SET_POOL record: holds open the
+                          # handler's unhooked reads between the callback and the clearing of the request bit
+                          extra_sweeps=(-49, -46), sweep_filter=lambda scn: "# F6" in scn,
                           rule="seeded scenario families %s; every history replayed through the extracted LTS; non-trivial = all (each scenario has >= 1 unit)" % [f.__name__ for f in FAMS])
